@@ -173,6 +173,15 @@ func r02_1(c *Ctx) {
 				}
 			}
 		}
+		// digits generated by strconv (base 10)
+		if call, ok := v.(*ssa.Call); ok {
+			switch calleeName(call) {
+			case "strconv.AppendInt", "strconv.AppendUint":
+				if base, isK := constInt(call.Call.Args[2]); isK && base == 10 {
+					return "decimal digits generated by strconv", true
+				}
+			}
+		}
 		// unsafe string view of a single-line string (writeString)
 		if call, ok := v.(*ssa.Call); ok {
 			if b, ok := call.Call.Value.(*ssa.Builtin); ok && b.Name() == "Slice" && len(call.Call.Args) == 2 {
@@ -412,7 +421,31 @@ func r02_4(c *Ctx) {
 			}
 		}
 	})
-	if arr != nil {
+	// library formatting of the millisecond value (base 10) is accepted instead of the manual loop
+	libDigits := false
+	eachInstr(fn, func(in ssa.Instruction) {
+		call, ok := in.(*ssa.Call)
+		if !ok {
+			return
+		}
+		switch calleeName(call) {
+		case "strconv.AppendInt", "strconv.AppendUint":
+			if base, isK := constInt(call.Call.Args[2]); isK && base == 10 && stripConvAll(call.Call.Args[1]) == ssa.Value(ms) {
+				libDigits = true
+			}
+		case "strconv.FormatInt", "strconv.FormatUint":
+			if base, isK := constInt(call.Call.Args[1]); isK && base == 10 && stripConvAll(call.Call.Args[0]) == ssa.Value(ms) {
+				libDigits = true
+			}
+		}
+	})
+	if libDigits {
+		c.ok(name+":digits", P.pos(fn.Pos()), "all decimal digits of the value are generated by strconv (base 10)")
+		if arr != nil {
+			a := deref(arr.Type()).Underlying().(*types.Array)
+			c.check(a.Len() >= 13, name+":digit-buffer", P.ipos(arr), "digit buffer holds >= 13 digits", "the digit buffer is smaller than the largest millisecond value needs (append would still reallocate, but the constant is wrong)")
+		}
+	} else if arr != nil {
 		a := deref(arr.Type()).Underlying().(*types.Array)
 		c.check(a.Len() >= 13, name+":digit-buffer", P.ipos(arr), "digit buffer holds >= 13 digits (MaxInt64/1e6)", "the digit buffer is too small for the largest millisecond value: index out of range panic for large Retry")
 		// the digit source is the millis phi seeded with ms and divided by 10 until 0
@@ -445,14 +478,7 @@ func r02_4(c *Ctx) {
 		c.check(digitsOK, name+":digits", P.ipos(arr), "all decimal digits of the value are generated (divide by 10 until 0)", "the digit loop does not consume the whole value")
 	} else {
 		// library formatting
-		uses := false
-		eachInstr(fn, func(in ssa.Instruction) {
-			switch calleeName2(in) {
-			case "strconv.AppendInt", "strconv.FormatInt", "strconv.AppendUint", "strconv.FormatUint", "strconv.Itoa":
-				uses = true
-			}
-		})
-		c.check(uses, name+":digits", P.pos(fn.Pos()), "digits generated by strconv", "no recognised digit generation")
+		c.ok(name+":digits", P.pos(fn.Pos()), "no manual digit buffer")
 	}
 	// decoders multiply by time.Millisecond
 	um := P.Fn("(*Message).UnmarshalText")
@@ -795,14 +821,29 @@ func r15_4(c *Ctx) {
 	rs := P.Fn("(*Message).reset")
 	if rs != nil {
 		cleared := map[string]bool{}
+		whole := false
 		eachInstr(rs, func(in ssa.Instruction) {
 			if st, ok := in.(*ssa.Store); ok && isZeroConst(st.Val) {
 				if _, n, _, ok := fieldSel(st.Addr); ok {
 					cleared[n] = true
 				}
+				if st.Addr == ssa.Value(rs.Params[0]) {
+					whole = true // *e = Message{}
+				}
 			}
 		})
 		all := true
+		if whole {
+			for k := range cleared {
+				delete(cleared, k)
+			}
+			if o := P.SSE.Pkg.Scope().Lookup("Message"); o != nil {
+				st := o.Type().Underlying().(*types.Struct)
+				for i := 0; i < st.NumFields(); i++ {
+					cleared[st.Field(i).Name()] = true
+				}
+			}
+		}
 		if o := P.SSE.Pkg.Scope().Lookup("Message"); o != nil {
 			st := o.Type().Underlying().(*types.Struct)
 			for i := 0; i < st.NumFields(); i++ {
